@@ -66,8 +66,9 @@ fn lib_case(rep: &Report, t: &Tuple) {
 
 const GUARD: usize = 64;
 
-fn ffi_case(rep: &Report, ffi: &Ffi, t: &Tuple) {
-    rep.eval(1);
+/// One tuple through the exported C function, with guard bytes around every buffer; returns (clause, message) findings.
+fn ffi_eval(ffi: &Ffi, t: &Tuple) -> Vec<(String, String)> {
+    let mut findings = vec![];
     let want = r::scrypt(&t.pw, &t.salt, t.n as u64, t.r as u64, t.p as u64, t.dk);
     // inputs in guarded buffers too, so a write into them is seen
     let mut pwbuf = vec![0x3cu8; GUARD + t.pw.len() + GUARD];
@@ -86,18 +87,145 @@ fn ffi_case(rep: &Report, ffi: &Ffi, t: &Tuple) {
             (ffi.f)(pwbuf.as_ptr().add(GUARD), t.pw.len(), saltbuf.as_ptr().add(GUARD), t.salt.len(), t.n, t.r, t.p, out.as_mut_ptr().add(base), t.dk);
         });
         if let Err(m) = res {
-            rep.violation("ffi/panic", t.json("ffi"), format!("exported scrypt panicked for {}: {}", t.descr(), m));
-            return;
+            findings.push(("ffi/panic".into(), format!("exported scrypt panicked for {}: {}", t.descr(), m)));
+            return findings;
         }
         if out[base..base + t.dk] != want[..] {
-            rep.violation("ffi/value-differs", t.json("ffi"), format!("exported C scrypt wrote a value different from RFC 7914 for {} (output buffer at address = {} mod 8)", t.descr(), off));
+            findings.push(("ffi/value-differs".into(), format!("exported C scrypt wrote a value different from RFC 7914 for {} (output buffer at address = {} mod 8)", t.descr(), off)));
         }
         if out[..base].iter().any(|&b| b != 0xa5) || out[base + t.dk..].iter().any(|&b| b != 0xa5) {
-            rep.violation("ffi/wrote-outside", t.json("ffi"), format!("exported C scrypt touched bytes outside the requested {} bytes ({}; output buffer at address = {} mod 8)", t.dk, t.descr(), off));
+            findings.push(("ffi/wrote-outside".into(), format!("exported C scrypt touched bytes outside the requested {} bytes ({}; output buffer at address = {} mod 8)", t.dk, t.descr(), off)));
         }
     }
     if pwbuf != pw0 || saltbuf != salt0 {
-        rep.violation("ffi/inputs-modified", t.json("ffi"), format!("exported C scrypt modified its inputs ({})", t.descr()));
+        findings.push(("ffi/inputs-modified".into(), format!("exported C scrypt modified its inputs ({})", t.descr())));
+    }
+    findings
+}
+
+/// Output buffer == (a prefix of) the salt / password buffer; the aliased input sits inside a guarded arena.
+fn ffi_overlap_eval(ffi: &Ffi, t: &Tuple, over_salt: bool) -> Vec<(String, String)> {
+    let mut findings = vec![];
+    let want = r::scrypt(&t.pw, &t.salt, t.n as u64, t.r as u64, t.p as u64, t.dk);
+    let mut pw = vec![0xa5u8; GUARD + t.pw.len() + GUARD];
+    pw[GUARD..GUARD + t.pw.len()].copy_from_slice(&t.pw);
+    let mut salt = vec![0xa5u8; GUARD + t.salt.len() + GUARD];
+    salt[GUARD..GUARD + t.salt.len()].copy_from_slice(&t.salt);
+    let res = guarded(|| unsafe {
+        if over_salt {
+            let p = salt.as_mut_ptr().add(GUARD);
+            (ffi.f)(pw.as_ptr().add(GUARD), t.pw.len(), p as *const u8, t.salt.len(), t.n, t.r, t.p, p, t.dk);
+        } else {
+            let p = pw.as_mut_ptr().add(GUARD);
+            (ffi.f)(p as *const u8, t.pw.len(), salt.as_ptr().add(GUARD), t.salt.len(), t.n, t.r, t.p, p, t.dk);
+        }
+    });
+    let (buf, blen) = if over_salt { (&salt, t.salt.len()) } else { (&pw, t.pw.len()) };
+    let _ = blen;
+    if res.is_err() {
+        findings.push(("ffi/panic".into(), format!("exported scrypt panicked with output overlapping an input ({})", t.descr())));
+    } else if buf[GUARD..GUARD + t.dk] != want[..] {
+        findings.push(("ffi/overlap-value-differs".into(), format!("exported C scrypt with the output buffer overlapping the {} wrote a value different from RFC 7914 of the original inputs ({})", if over_salt { "salt" } else { "password" }, t.descr())));
+    } else if buf[..GUARD].iter().any(|&b| b != 0xa5) || buf[GUARD + t.dk.max(blen)..].iter().any(|&b| b != 0xa5) {
+        findings.push(("ffi/wrote-outside".into(), format!("exported C scrypt (output overlapping the {}) touched bytes outside the buffer ({})", if over_salt { "salt" } else { "password" }, t.descr())));
+    }
+    findings
+}
+
+/// `kv ffi-child <jobs file> <start index>`: runs the jobs sequentially on one thread in THIS process and prints
+/// "B i" before and "R i <findings json>" after each, so that a crash of the exported function (abort from a panic
+/// crossing the C ABI, heap corruption, SIGSEGV) is attributed to the job during which it happened.
+pub fn ffi_child_main(a: &[String]) -> ! {
+    use std::io::Write;
+    let text = std::fs::read_to_string(&a[0]).unwrap_or_default();
+    let start: usize = a[1].parse().unwrap_or(0);
+    let ffi = Ffi::load();
+    let out = std::io::stdout();
+    for (i, line) in text.lines().enumerate().skip(start) {
+        let v: Value = serde_json::from_str(line).unwrap();
+        let t = Tuple { pw: unhx(v["pw"].as_str().unwrap()), salt: unhx(v["salt"].as_str().unwrap()), n: v["n"].as_u64().unwrap() as u32, r: v["r"].as_u64().unwrap() as u32, p: v["p"].as_u64().unwrap() as u32, dk: v["dk"].as_u64().unwrap() as usize };
+        {
+            let mut o = out.lock();
+            let _ = writeln!(o, "B {}", i);
+            let _ = o.flush();
+        }
+        let f = match v["mode"].as_u64().unwrap_or(0) {
+            1 => ffi_overlap_eval(&ffi, &t, true),
+            2 => ffi_overlap_eval(&ffi, &t, false),
+            _ => ffi_eval(&ffi, &t),
+        };
+        let mut o = out.lock();
+        let _ = writeln!(o, "R {} {}", i, serde_json::to_string(&f).unwrap());
+        let _ = o.flush();
+    }
+    std::process::exit(0);
+}
+
+/// Run FFI jobs (tuple, mode) in child processes, sequentially per batch; a child that dies is restarted after the job
+/// that killed it, and that death is a finding of its own.
+fn ffi_batch(rep: &Report, jobs: &[(Tuple, u8)], tag: &str) {
+    if jobs.is_empty() {
+        return;
+    }
+    let exe = std::env::current_exe().unwrap_or_else(|_| crate::report::machinery("current_exe"));
+    let sc = crate::proc::Scratch::new();
+    let path = sc.path("ffi-jobs.jsonl");
+    let text: String = jobs.iter().map(|(t, m)| { let mut j = t.json("ffi"); j["mode"] = json!(m); format!("{}\n", j) }).collect();
+    std::fs::write(&path, text).unwrap();
+    let mut start = 0usize;
+    let mut crashes = 0;
+    while start < jobs.len() {
+        let o = std::process::Command::new(&exe).args(["ffi-child", path.to_str().unwrap(), &start.to_string()]).stdin(std::process::Stdio::null()).stderr(std::process::Stdio::piped()).output();
+        let o = match o {
+            Ok(o) => o,
+            Err(e) => crate::report::machinery(&format!("cannot start the FFI child: {}", e)),
+        };
+        let out = String::from_utf8_lossy(&o.stdout).to_string();
+        let mut begun: Option<usize> = None;
+        let mut done = start;
+        for line in out.lines() {
+            if let Some(x) = line.strip_prefix("B ") {
+                begun = x.trim().parse().ok();
+            } else if let Some(x) = line.strip_prefix("R ") {
+                let (i, js) = x.split_once(' ').unwrap_or((x, "[]"));
+                let i: usize = i.parse().unwrap_or(0);
+                rep.eval(1);
+                let (t, m) = &jobs[i];
+                rep.nontrivial(format!("ffi-{}-{:?}-{}", tag, t, m).as_bytes());
+                let f: Vec<(String, String)> = serde_json::from_str(js).unwrap_or_default();
+                for (clause, msg) in f {
+                    let mut j = t.json(if *m == 0 { "ffi" } else { "ffi-overlap" });
+                    if *m != 0 {
+                        j["over"] = json!(if *m == 1 { "salt" } else { "password" });
+                    }
+                    rep.violation(&clause, j, msg);
+                }
+                done = i + 1;
+                begun = None;
+            }
+        }
+        if o.status.success() && done >= jobs.len() {
+            break;
+        }
+        // the child died: the job it had begun is the one that killed it
+        let culprit = begun.unwrap_or(done);
+        if culprit >= jobs.len() {
+            crate::report::machinery(&format!("FFI child ended early without a begun job: {:?}", o.status));
+        }
+        let (t, m) = &jobs[culprit];
+        use std::os::unix::process::ExitStatusExt;
+        let err = String::from_utf8_lossy(&o.stderr);
+        rep.eval(1);
+        rep.violation(
+            "ffi/crash",
+            t.json(if *m == 0 { "ffi" } else { "ffi-overlap" }),
+            format!("the process calling the exported C scrypt died during {} (signal {:?}, exit {:?}): {}", t.descr(), o.status.signal(), o.status.code(), err.lines().rev().find(|l| !l.trim().is_empty()).unwrap_or("").chars().take(160).collect::<String>()),
+        );
+        crashes += 1;
+        if crashes > 20 {
+            break; // enough evidence; do not restart forever
+        }
+        start = culprit + 1;
     }
 }
 
@@ -183,30 +311,6 @@ fn tuples(seed: u64, tier: Tier) -> (Vec<Tuple>, Vec<Tuple>) {
 }
 
 /// the caller's output buffer is the same memory as the salt (or password): the value must still be RFC 7914 of the ORIGINAL inputs
-fn ffi_overlap_case(rep: &Report, ffi: &Ffi, t: &Tuple, over_salt: bool) {
-    rep.eval(1);
-    let want = r::scrypt(&t.pw, &t.salt, t.n as u64, t.r as u64, t.p as u64, t.dk);
-    let mut pw = t.pw.clone();
-    let mut salt = t.salt.clone();
-    let res = guarded(|| unsafe {
-        if over_salt {
-            let p = salt.as_mut_ptr();
-            (ffi.f)(pw.as_ptr(), pw.len(), p as *const u8, salt.len(), t.n, t.r, t.p, p, t.dk);
-        } else {
-            let p = pw.as_mut_ptr();
-            (ffi.f)(p as *const u8, pw.len(), salt.as_ptr(), salt.len(), t.n, t.r, t.p, p, t.dk);
-        }
-    });
-    let got = if over_salt { &salt[..t.dk] } else { &pw[..t.dk] };
-    let mut j = t.json("ffi-overlap");
-    j["over"] = json!(if over_salt { "salt" } else { "password" });
-    if res.is_err() {
-        rep.violation("ffi/panic", j, format!("exported scrypt panicked with output overlapping an input ({})", t.descr()));
-    } else if got != &want[..] {
-        rep.violation("ffi/overlap-value-differs", j, format!("exported C scrypt with the output buffer overlapping the {} wrote a value different from RFC 7914 of the original inputs ({})", if over_salt { "salt" } else { "password" }, t.descr()));
-    }
-}
-
 /// `kv scrypt-child <lib|ffi> <extra_kib> <n> <r> <p> <dk> <pw_hex> <salt_hex>`: one derivation in a process whose
 /// address space is limited to what it uses now plus `extra_kib` (the "allocation answers" of the environment).
 /// Prints the derived key in hex; an allocation failure aborts the process (no value is returned).
@@ -313,11 +417,14 @@ pub fn run(rep: &'static Report) {
         lib_case(rep, t);
         rep.nontrivial(format!("lib-{:?}", t).as_bytes());
     });
-    let ffi = Ffi::load();
-    ffi_t.par_iter().for_each(|t| {
-        ffi_case(rep, &ffi, t);
-        rep.nontrivial(format!("ffi-{:?}", t).as_bytes());
-    });
+    // every call of the exported C function happens in a child process (a panic crossing the C ABI aborts, an overrun
+    // may corrupt the heap: both must become findings, not crashes of the checker); 16 batches in parallel
+    {
+        let jobs: Vec<(Tuple, u8)> = ffi_t.iter().map(|t| (t.clone(), 0u8)).collect();
+        let nb = 16usize;
+        let slices: Vec<Vec<(Tuple, u8)>> = (0..nb).map(|k| jobs.iter().skip(k).step_by(nb).cloned().collect()).collect();
+        slices.par_iter().enumerate().for_each(|(k, sl)| ffi_batch(rep, sl, &format!("grid{}", k)));
+    }
     // histories: every ordered pair of calls from a small tuple alphabet, consecutively on ONE thread
     // (state carried from one derivation to the next: cached tables, scratch buffers)
     {
@@ -333,13 +440,15 @@ pub fn run(rep: &'static Report) {
                 pairs += 1;
             }
         }
-        // and through the C ABI
+        // and through the C ABI (one child process, one thread, all pairs in order)
+        let mut seq: Vec<(Tuple, u8)> = vec![];
         for a in &alpha {
             for b in &alpha {
-                ffi_case(rep, &ffi, a);
-                ffi_case(rep, &ffi, b);
+                seq.push((a.clone(), 0));
+                seq.push((b.clone(), 0));
             }
         }
+        ffi_batch(rep, &seq, "pairs");
         rep.add_distinct(pairs);
         rep.extra("consecutive_call_pairs_on_one_thread", json!(pairs));
     }
@@ -347,8 +456,7 @@ pub fn run(rep: &'static Report) {
     let mut n_over = 0;
     for (pl, sl, dk) in [(40usize, 40usize, 32usize), (64, 33, 33), (100, 100, 64), (32, 16, 16)] {
         let t = Tuple { pw: derive(seed, "c18-ov-pw", pl), salt: derive(seed, "c18-ov-salt", sl), n: 16, r: 2, p: 1, dk };
-        ffi_overlap_case(rep, &ffi, &t, true);
-        ffi_overlap_case(rep, &ffi, &t, false);
+        ffi_batch(rep, &[(t.clone(), 1), (t.clone(), 2)], "overlap");
         rep.nontrivial(format!("ffi-overlap-{}-{}-{}", pl, sl, dk).as_bytes());
         n_over += 2;
     }
@@ -377,11 +485,11 @@ pub fn replay(rep: &'static Report, case: &Value) {
         dk: case["dk"].as_u64().unwrap() as usize,
     };
     if case["via"] == "ffi-overlap" {
-        ffi_overlap_case(rep, &Ffi::load(), &t, case["over"] == "salt");
+        ffi_batch(rep, &[(t, if case["over"] == "salt" { 1 } else { 2 })], "replay");
         return;
     }
     if case["via"] == "ffi" {
-        ffi_case(rep, &Ffi::load(), &t);
+        ffi_batch(rep, &[(t, 0)], "replay");
     } else {
         lib_case(rep, &t);
     }
